@@ -22,7 +22,7 @@ func init() {
 			"inputs finite (no NaN)",
 		},
 		Workloads: []core.Workload{
-			{Name: "purity", Variant: "plain", N: core.Tiered(41*18, 41*400), Run: c14Purity},
+			{Name: "purity", Variant: "plain", N: core.Tiered(41*40, 41*400), Run: c14Purity},
 			// table models: a run whose inputs sit exactly on interior knots of its rating table, re-run after a near-twin
 			// whose last lookup lies one representable number above the first knot used
 			{Name: "knot-history", Variant: "plain", N: core.Tiered(150, 5000), Run: c14KnotHistory},
@@ -85,8 +85,21 @@ func c14Purity(c *core.Ctx) {
 		others = append(others, other{names[c.R.Intn(len(names))], c.R.Uint64()})
 	}
 	procs := []int{1, 2, 3, 16}[c.R.Intn(4)]
-	c.Begin(map[string]interface{}{"model": model, "run": run, "history_of_other_runs": others, "gomaxprocs_second_run": procs})
-	c.Class(fmt.Sprintf("%s/N%d/T%d/h%d/p%d", model, N, T, hist, procs))
+	// half of the runs of stateful models start from the states a warm-up period left (wet stores, filled buffers): with
+	// empty stores many branches and parameters have nothing to act on
+	var warmP *MRun
+	if len(NewModel(model).Description().States) > 0 && c.R.Bool(0.5) {
+		warmP = GenRun(model, c.R, N, P, N, c.R.IntRange(10, 40), wc)
+		warmP.Sets = run.Sets
+	}
+	c.Begin(map[string]interface{}{"model": model, "run": run, "history_of_other_runs": others, "gomaxprocs_second_run": procs, "warmup_for_hot_states": warmP})
+	c.Class(fmt.Sprintf("%s/N%d/T%d/h%d/p%d/hot%v", model, N, T, hist, procs, warmP != nil))
+	if warmP != nil {
+		if wo, err := Execute(warmP); err == nil {
+			run.States = wo.States
+			c.Tag("purity:hot-states")
+		}
+	}
 
 	// 1: fresh object
 	p1, err := Prepare(run)
@@ -170,6 +183,44 @@ func c14Purity(c *core.Ctx) {
 	if c.R.Bool(0.2) {
 		// ... and a long history of other parameterisations of this model (bounded caches evict and recycle by then)
 		HostileHistory(c, model, nil)
+	}
+	// ... and one-parameter sweeps: the same run with ONE parameter given another value, then the run itself again - what a
+	// sensitivity analysis does. Whatever the library derives from the parameters and keeps must notice every one of them.
+	switch model {
+	case "StorageRouting", "Muskingum", "Storage", "RatingCurvePartition", "DateGenerator":
+		// (parameters whose legal values depend on each other: a single one cannot be redrawn on its own)
+	default:
+		np := len(p1.Desc.Parameters)
+		for j := 0; j < np && j < 30; j++ {
+			donor := GenPSet(model, c.R, genOpts{widthClass: wc, noDefaultTies: true})
+			sweep := *run
+			sweep.Sets = nil
+			changed := false
+			for _, set := range run.Sets {
+				cp := make(PSet, len(set))
+				copy(cp, set)
+				if len(donor[j]) == len(set[j]) && len(set[j]) == 1 && !core.BitEq(donor[j][0], set[j][0]) && !needsWidthClass(model) {
+					cp[j] = donor[j]
+					changed = true
+				}
+				sweep.Sets = append(sweep.Sets, cp)
+			}
+			if !changed {
+				continue
+			}
+			// the swept run itself comes right after its near-twin (the run under test): its result must be the one it has
+			// after an unrelated parameterisation of the same model has run in between
+			swA, _ := Execute(&sweep)
+			Execute(GenRun(model, c.R, 1, 1, 1, 2, wc))
+			swB, _ := Execute(&sweep)
+			if swA != nil && swB != nil {
+				cmpRuns(c, "run-right-after-near-twin", model, fmt.Sprintf("the run with only parameter %s changed, made right after the run under test vs made after an unrelated parameterisation", p1.Desc.Parameters[j].Name), swB, swA)
+			}
+			Execute(&sweep)
+			ps, _ := Prepare(run)
+			cmpRuns(c, "rerun-after-one-parameter-sweep", model, fmt.Sprintf("fresh object right after the same run with only parameter %s changed", p1.Desc.Parameters[j].Name), ref, ps.Exec())
+			c.Count("one_parameter_sweeps", 1)
+		}
 	}
 	old := runtime.GOMAXPROCS(procs)
 	p3, _ := Prepare(run)
